@@ -131,6 +131,7 @@ def run(ctx):
             ctx.count("invalid_scenarios")
     disappeared_family(ctx, rng, 250 if quick else 2500)
     appearing_family(ctx, rng, 250 if quick else 2500)
+    partial_writer_family(ctx, rng, 120 if quick else 1500)
     ctx.rule = ("twin scenarios of 3..8 statements (85%% with discovered deps, 35%% of generated headers without manifest path) x 1..4 "
                 "rounds of change sets + build; distinct_nontrivial = distinct (scenario, build step) twin comparisons in which at least "
                 "one statement with discovered dependencies was in the closure")
@@ -243,6 +244,68 @@ def disappeared_family(ctx, rng, n):
             ctx.violation("C10/disappeared-dependency/not-converged", "%s: the next build runs %s" % (what, [e["o"] for e in t4["events"] if e["e"] == "S"]), rep)
             continue
         ctx.count("disappeared_dependency_ok")
+
+
+def partial_writer_family(ctx, rng, n):
+    """A command with several outputs that rewrites the first one on every run and the others only when their content changes
+    (a linker that keeps an unchanged .map, a generator with write-if-changed side files) - without `restat`.  A header that
+    such a command reads changes in a way that does not reach the outputs: the first output is rewritten, the second keeps its
+    time and is now older than the header.  Declared as an implicit input, that header makes the statement out of date again in
+    the next run, and in every run after it; reported through the depfile / deps log it has to do exactly the same."""
+    from ..simlib import St
+    jobs = []
+    for k in range(n):
+        deps = rng.choice(("gcc", "depfile", "msvc", "gcc"))
+        nsec = rng.randint(1, 2)
+        srcs = {"c.c": "#include hol.h\n// consumer\n", "hol.h": simlib.HOLLOW, "other.c": "// other\n"}
+        outs = ["o/c.o"] + ["o/c.map%d" % q for q in range(nsec)]
+        iouts = []
+        if rng.random() < 0.4:
+            iouts, outs = [outs[-1]], outs[:-1]
+        D = St("cons", outs, iouts=iouts, ins=["c.c"], deps=deps, depfile="o/c.o.d" if deps != "msvc" else "", keep2=True)
+        M = St("cons", outs, iouts=iouts, ins=["c.c"], iins=["hol.h"], keep2=True)
+        oth = St("oth", ["o/other.o"], ins=["other.c"])
+        lnk = St("lnk", ["prog"], ins=["o/c.o", "o/other.o"])
+        b = lambda sd, tg=(): {"op": "build", "targets": list(tg), "j": rng.choice((1, 2)), "k": 1, "sched": {"mode": "prng", "seed": sd}}
+        tg = rng.choice(((), (), ("o/c.o",), ("prog",)))
+        steps = [b(1), b(2), {"op": "touch", "path": "hol.h"}, b(3, tg), b(4, tg), b(5, tg)]
+        pair = []
+        for tag, st in (("disc", D), ("decl", M)):
+            sc = {"id": "C10-%d-pw-%d-%s" % (ctx.seed, k, tag), "sources": dict(srcs), "stmts": [st, copy.deepcopy(oth), copy.deepcopy(lnk)], "pools": {}, "defaults": []}
+            pair.append(simlib.scenario_json(sc, steps))
+        jobs.append((pair, deps))
+    res = {}
+
+    def handler(scn, results, err):
+        res[scn["id"]] = results
+    simlib.run_scenarios([p_ for pair, _ in jobs for p_ in pair], handler)
+    for (sd, sm), deps in jobs:
+        rd, rm = res.get(sd["id"]), res.get(sm["id"])
+        if not rd or not rm:
+            ctx.inconclusive += 1
+            continue
+        bd = [x for x in rd if x.get("op") == "build"]
+        bm = [x for x in rm if x.get("op") == "build"]
+        if len(bd) < 5 or len(bm) < 5 or any(x["trace"].get("crash") for x in bd + bm):
+            crash = next((x["trace"] for x in bd + bm if x.get("trace", {}).get("crash")), None)
+            if crash:
+                ctx.violation("C10/nsim-crash/" + (util.san_signature(crash.get("stderr", "")) or "crash"), "%s: %s" % (sd["id"], crash.get("stderr", "")[-1200:]), {"scenario": sd})
+            else:
+                ctx.inconclusive += 1
+            continue
+        ctx.evaluations += 1
+        ctx.count("partial_writer_twins")
+        ctx.nontrivial(("pw", sd["id"]))
+        for i, (x, y) in enumerate(zip(bd, bm)):
+            sx = sorted(e["o"] for e in x["trace"]["events"] if e["e"] == "S")
+            sy = sorted(e["o"] for e in y["trace"]["events"] if e["e"] == "S")
+            if sx != sy or x["trace"]["result"].get("exit") != y["trace"]["result"].get("exit"):
+                ctx.violation("C10/partial-writer/twins-differ/deps=%s" % deps,
+                              "scenario %s build %d: with the header reported through %s the build ran %s (exit %s), with the header declared as an implicit input %s (exit %s)" %
+                              (sd["id"], i + 1, deps, sx, x["trace"]["result"].get("exit"), sy, y["trace"]["result"].get("exit")), {"scenario": sd, "twin": sm})
+                break
+            if i >= 3 and "o/c.o" in sy:
+                ctx.count("partial_writer_runs_again_in_both")
 
 
 def appearing_family(ctx, rng, n):
